@@ -261,7 +261,9 @@ func ZZ_C01_filterMap() {
 	nNodes := 2
 	maxPods := 2
 	if nondet.Thorough() {
-		nNodes, maxPods = 3, 3
+		// (three pods over three nodes are two million paths and 20 minutes: the thorough tier has
+		// three pods — triple occupancy of a node — over two nodes)
+		nNodes, maxPods = 2, 3
 	}
 	tpl := zzTplAttr{}
 	rs := zzTemplateFor(tpl)
